@@ -457,7 +457,8 @@ FUNCTIONS = list(_s.FUNCTIONS) + [
         ensures RET == STATE_AGAIN ==> (POS(cursor) == LEN(cursor) && this->bytesRead == OLD(this->bytesRead) + g_app_total
                                         && this->bytesRead < cl->p->value_ && BODY(this).size == this->bytesRead)
         # complete exactly when the declared number of bytes has been stored
-        ensures RET == STATE_DONE ==> (BODY(this).size == cl->p->value_ && this->bytesRead == 0)"""},
+        # (whether the counter is cleared here or by reset() before the next message is an implementation choice: C04 is decided by reset())
+        ensures RET == STATE_DONE ==> BODY(this).size == cl->p->value_"""},
     {'q': 'Pistache::Http::Private::BodyStep::parseContentLength::readBody', 'lambda': True},
     {'q': 'Pistache::Http::Private::BodyStep::parseTransferEncoding',
      # the trailing `return State::Done;` follows an else-branch that always raises
@@ -498,7 +499,7 @@ FUNCTIONS = list(_s.FUNCTIONS) + [
         # a message without body framing is complete at once and consumes nothing
         ensures (vs_exc == 0 && !g_has_cl && !g_has_te) ==> (RET == STATE_DONE && POS(cursor) == OLD(POS(cursor)))
         # Content-Length framing: complete exactly when the declared number of bytes has been stored
-        ensures (vs_exc == 0 && g_has_cl && RET == STATE_DONE) ==> (BODY(this).size == g_cl_hdr && this->bytesRead == 0)
+        ensures (vs_exc == 0 && g_has_cl && RET == STATE_DONE) ==> BODY(this).size == g_cl_hdr
         ensures (vs_exc == 0 && g_has_cl && RET == STATE_AGAIN) ==> (POS(cursor) == LEN(cursor) && BODY(this).size < g_cl_hdr)
         ensures (vs_exc == 0 && g_has_cl) ==> (BODY(this).size - OLD(BODY(this).size) == POS(cursor) - OLD(POS(cursor)))
         ensures g_has_cl && g_has_te ==> vs_exc != 0"""},
